@@ -29,7 +29,7 @@ import sys
 import zipfile
 import zlib
 
-SYNTH_DIR = "/tmp/c06_synth_v5"
+SYNTH_DIR = "/tmp/c06_synth_v6"
 
 WORKER = r'''
 import sys, io, json, glob, hashlib, logging, dataclasses, os
@@ -83,6 +83,9 @@ def observe(r):
         for name in ("get_caption", "get_description", "get_content_type"):
             if hasattr(im, name):
                 getattr(im, name)()
+    if hasattr(r, "iterate_supported_attachments"):      # a consumer extracts the attachments of a mail (each one an extraction of its own)
+        for sub in r.iterate_supported_attachments():
+            sub.get_full_text(); js(sub)
     out = []
     streams(r, set(), out)
     for s in out:                        # ... or any other stream the result owns (attachments)
@@ -96,6 +99,66 @@ if scope in ("all", "synthetic"):
 files = [f for f in files if os.path.isfile(f) and sharepoint2text.is_supported_file(f)]
 if order == "rev":
     files.reverse()
+
+def pristine(f):
+    """to_json() of the document extracted in a process that has extracted nothing else: a fork of this (still pristine)
+    process, so that the comparison does not depend on which documents happen to precede it in the corpus order."""
+    rd, wr = os.pipe()
+    pid = os.fork()
+    if pid == 0:
+        code = 0
+        try:
+            os.close(rd)
+            data = open(f, "rb").read()
+            j = [js(r) for r in sharepoint2text.get_extractor(f)(io.BytesIO(data), f)]
+            with os.fdopen(wr, "w") as fh:
+                fh.write(hashlib.sha256("".join(j).encode()).hexdigest())
+        except BaseException:
+            code = 3
+        os._exit(code)
+    os.close(wr)
+    with os.fdopen(rd, "r") as fh:
+        raw = fh.read()
+    _pid, status = os.waitpid(pid, 0)
+    if status != 0 or len(raw) != 64:
+        return None
+    return raw
+
+def preimport():
+    """Import (not run) every module the package imports anywhere, also inside functions: the forked baselines then do not
+    each repeat the lazy imports."""
+    import ast, importlib
+    names = set()
+    for dp, _dn, fs in os.walk(os.path.join(repo, "sharepoint2text")):
+        if os.sep + "tests" in dp:
+            continue
+        for fn in fs:
+            if fn.endswith(".py"):
+                try:
+                    tree = ast.parse(open(os.path.join(dp, fn), encoding="utf-8").read())
+                except (OSError, SyntaxError, ValueError):
+                    continue
+                for n in ast.walk(tree):
+                    if isinstance(n, ast.Import):
+                        names.update(a.name for a in n.names)
+                    elif isinstance(n, ast.ImportFrom) and n.module and not n.level:
+                        names.add(n.module)
+    for name in sorted(names):
+        if "sharepoint_io" in name or name.endswith("__main__") or ".cli" in name:
+            continue
+        try:
+            importlib.import_module(name)
+        except BaseException:
+            pass
+
+fresh = {}
+if order == "fwd" and hasattr(os, "fork") and not os.environ.get("C06_NO_FORK_BASELINE"):
+    preimport()
+    for f in files:
+        try:
+            fresh[f] = pristine(f)
+        except OSError:
+            pass
 out = {}
 for f in files:
     name = f[len(repo) + 1:] if f.startswith(repo + "/") else "synthetic/" + os.path.basename(f)
@@ -107,7 +170,11 @@ for f in files:
         j1 = [js(r) for r in res]
         rec = {"digest": hashlib.sha256("".join(j1).encode()).hexdigest(), "json": j1, "buffer_unchanged": same(buf, data),
                "observer_stable": True, "repeat_stable": True, "history": []}
+        if fresh.get(f) is not None and fresh[f] != rec["digest"]:
+            rec["fresh_differs"] = True
         full = []
+        out[name] = rec
+        stage = "observing the result (units, images, tables, attachments, streams) and serialising it again"
         for r in res:
             before = js(r)
             observe(r)
@@ -115,12 +182,15 @@ for f in files:
             if before != after:
                 rec["observer_stable"] = False
             full.append(listing(r))
+        stage = "extracting the same bytes a second time"
         # the same bytes again in this process, the caller's cursor somewhere else
         b2 = io.BytesIO(data)
         b2.seek(min(7, len(data)))
         res2 = list(ex(b2, f))
-        if [js(r) for r in res2] != j1:
+        j2 = [js(r) for r in res2]
+        if j2 != j1:
             rec["repeat_stable"] = False
+            rec["repeat_json"] = j2
         if not same(b2, data):
             rec["buffer_unchanged"] = False
         # a consumer that only peeks at the first unit / image / table, then lists everything: same listing as on the first result
@@ -147,7 +217,11 @@ for f in files:
             rec["history"].append("to_json() of an earlier result changed after later extractions in the same process")
         out[name] = rec
     except Exception as e:
-        out[name] = {"error": type(e).__name__}
+        if name in out and "json" in out[name]:
+            # the first extraction and its serialisation succeeded: whatever fails afterwards fails because of what happened before
+            out[name]["history"].append("after a successful first extraction, " + stage + " raised " + type(e).__name__)
+        else:
+            out[name] = {"error": type(e).__name__}
 print(json.dumps(out))
 '''
 
@@ -343,6 +417,33 @@ TRACKED_ONLY = ('<text:tracked-changes><text:changed-region text:id="ct1"><text:
                 '</text:deletion></text:changed-region></text:tracked-changes><text:p><text:change text:change-id="ct1"/></text:p>')
 
 
+def mail_with_attachments():
+    """An .eml whose attachments exercise how the type of an attachment is determined and what happens to its stream."""
+    import base64
+    b = "c06-boundary"
+    csv_plain = "a,b\r\n1,2\r\n"
+    parts = [
+        ("report.csv", "text/csv", csv_plain.encode()),                                   # name tells the type
+        ("export", "text/csv", csv_plain.replace("1", "3").encode()),                     # no extension: type from the MIME type
+        ("figures.dat", "text/csv", csv_plain.replace("1", "5").encode()),                # unknown extension
+        (None, "text/plain", b"nameless part\n"),                                        # no name at all
+        ("bom.csv", "text/csv", b"\xef\xbb\xbf" + "x,y\r\nZürich,1\r\n".encode("utf-8")),   # byte order mark
+        ("notes", "text/plain", b"\xff\xfe" + "utf-16 notes\n".encode("utf-16-le")),   # BOM + no extension
+        ("report.csv", "text/csv", csv_plain.replace("1", "7").encode()),                 # the same name twice
+        ("blob.bin", "application/octet-stream", bytes(range(64))),                       # unsupported
+        ("data.json", "application/json", b'{"k": [1, 2, 3]}'),
+    ]
+    lines = ["From: erin@example.com", "To: team@example.com", "Subject: attachments of every kind", "Date: Tue, 07 Jan 2025 09:00:00 +0000",
+             "Message-ID: <attachments-001@example.com>", "MIME-Version: 1.0", f'Content-Type: multipart/mixed; boundary="{b}"', "",
+             f"--{b}", "Content-Type: text/plain; charset=utf-8", "", "see attachments", ""]
+    for name, mime, data in parts:
+        lines += [f"--{b}", f"Content-Type: {mime}" + (f'; name="{name}"' if name else ""), "Content-Transfer-Encoding: base64",
+                  "Content-Disposition: attachment" + (f'; filename="{name}"' if name else ""), "",
+                  base64.b64encode(data).decode("ascii"), ""]
+    lines += [f"--{b}--", ""]
+    return "\r\n".join(lines).encode("utf-8")
+
+
 def synth_corpus(repo):
     """{file name: bytes}; deterministic."""
     out = {"c06_style_names.odt": odt_with_styles(NAME_POOL), "c06_style_names.docx": docx_with_styles(NAME_POOL),
@@ -365,6 +466,43 @@ def synth_corpus(repo):
     out["c06_blank.txt"] = b"  \n\n \t\n"
     out["c06_short.txt"] = b"hi\n"
     out["c06_paragraphs.txt"] = b"first paragraph, long enough to take a while\n" * 40 + b"\n\nsecond\n\nthird paragraph\n" + b"x" * 3000 + b"\n\nlast\n"
+    # byte order marks (Notepad "UTF-8 with BOM", Excel "CSV UTF-8", UTF-16 / UTF-32 exports): the explicit-encoding branches
+    sample = "name;value\r\nZürich;1\r\nŁódź;2\nlast line without newline"
+    out["c06_bom_utf8.txt"] = b"\xef\xbb\xbf" + sample.encode("utf-8")
+    out["c06_bom_utf8.csv"] = b"\xef\xbb\xbf" + sample.replace(";", ",").encode("utf-8")
+    out["c06_bom_utf16le.txt"] = b"\xff\xfe" + sample.encode("utf-16-le")
+    out["c06_bom_utf16be.md"] = b"\xfe\xff" + ("# title\n\n" + sample).encode("utf-16-be")
+    out["c06_bom_utf32le.txt"] = b"\xff\xfe\x00\x00" + sample.encode("utf-32-le")
+    out["c06_bom_utf8.json"] = b"\xef\xbb\xbf" + b'{"k": ["v", 1, null], "city": "Z\xc3\xbcrich"}'
+    out["c06_bom_only.txt"] = b"\xef\xbb\xbf"
+    # mails with attachments: named after their type, without / with an unknown extension (the type comes from the declared MIME
+    # type), nameless parts, byte-order-marked text parts, an unsupported type, twice the same name
+    out["c06_attachments.eml"] = mail_with_attachments()
+    # optional attributes absent: comments / footnotes / endnotes without w:id, author, date (converters leave them out)
+    import re as _re
+    for fixture in ("modern_ms/sample_with_comment_and_table.docx", "modern_ms/thesis-template.docx"):
+        try:
+            raw = open(os.path.join(res, fixture), "rb").read()
+            z = zipfile.ZipFile(io.BytesIO(raw))
+            doc, touched = raw, False
+            for part, tag in (("word/comments.xml", "w:comment"), ("word/footnotes.xml", "w:footnote"), ("word/endnotes.xml", "w:endnote")):
+                if part not in z.namelist():
+                    continue
+                cx = z.read(part).decode("utf-8")
+                items = _re.findall(rf"<{tag}\b[^>]*>.*?</{tag}>", cx, _re.S)
+                items = [x for x in items if "w:type=" not in x.split(">", 1)[0]]
+                if not items:
+                    continue
+                last = items[-1]
+                no_id = _re.sub(r'\sw:id="[^"]*"', "", last, count=1)
+                bare = _re.sub(rf"<{tag}\b[^>]*>", f"<{tag}>", last, count=1)
+                other = bare.replace(f"</{tag}>", f"<w:p><w:r><w:t>another one</w:t></w:r></w:p></{tag}>")
+                doc = with_part(doc, part, cx.replace(last, last + no_id + bare + other, 1).encode("utf-8"))
+                touched = True
+            if touched:
+                out["c06_notes_without_id_" + os.path.basename(fixture)] = doc
+        except (OSError, KeyError, zipfile.BadZipFile):
+            pass
     # member names that differ only in case, referenced with yet another spelling (case-insensitive producers / file systems)
     try:
         raw = open(os.path.join(res, "modern_ms/pptx_formula_image.pptx"), "rb").read()
@@ -528,6 +666,29 @@ def mismatches(repo, scope="all", seeds=(1, 2)):
     return r
 
 
+FRESH_ONE = r'''
+import sys, io, json, logging
+logging.disable(logging.CRITICAL)
+repo, f = sys.argv[1], sys.argv[2]
+sys.path.insert(0, repo)
+import sharepoint2text
+data = open(f, "rb").read()
+print(json.dumps([json.dumps(r.to_json(), sort_keys=True, default=str) for r in sharepoint2text.get_extractor(f)(io.BytesIO(data), f)]))
+'''
+
+
+def fresh_json(repo, synth, name):
+    """to_json() of one corpus document extracted in a process of its own."""
+    f = os.path.join(synth, name[len("synthetic/"):]) if name.startswith("synthetic/") else os.path.join(repo, name)
+    try:
+        p = subprocess.run([sys.executable, "-c", FRESH_ONE, repo, f], capture_output=True, text=True, timeout=120,
+                           env=dict(os.environ, PYTHONHASHSEED="1", LC_ALL="C.UTF-8", LANG="C.UTF-8", TZ="UTC"))
+        lines = [l for l in p.stdout.splitlines() if l.startswith("[")]
+        return json.loads(lines[-1]) if lines else None
+    except (subprocess.TimeoutExpired, ValueError, OSError):
+        return None
+
+
 def _mismatches_uncached(repo, synth, scope, seeds):
     procs = [start(s, repo, synth, "fwd" if i % 2 == 0 else "rev", scope) for i, s in enumerate(seeds)]
     runs = [collect(p) for p in procs]
@@ -535,6 +696,7 @@ def _mismatches_uncached(repo, synth, scope, seeds):
         return None
     a = runs[0]
     out = []
+    n_fresh = 0
     for f in sorted(a):
         ra = a[f]
         if "error" in ra:
@@ -545,8 +707,30 @@ def _mismatches_uncached(repo, synth, scope, seeds):
             out.append((f, "to_json() changed by observers (units / images / streams read)", ""))
         for h in sorted({h for r in runs for h in r.get(f, {}).get("history", [])}):
             out.append((f, h, ""))
+        for r in runs:
+            if r.get(f, {}).get("fresh_differs"):
+                paths = []
+                n_fresh += 1
+                fj = fresh_json(repo, synth, f) if n_fresh <= 8 else None      # where it differs: one more fresh process, this document only
+                for x, y in zip(fj or [], r[f].get("json", [])):
+                    try:
+                        _diff(json.loads(x), json.loads(y), "", paths)
+                    except ValueError:
+                        pass
+                if fj is not None and len(fj) != len(r[f].get("json", [])):
+                    paths.append("<number of results>")
+                out.append((f, "to_json() differs between a fresh process and a process that has extracted other documents before",
+                            ",".join(sorted(set(paths))[:6])))
         if not all(r.get(f, {}).get("repeat_stable", True) for r in runs):
-            out.append((f, "to_json() differs between two extractions in one process (second one with the input cursor at offset 7)", ""))
+            paths = []
+            for r in runs:
+                for x, y in zip(r.get(f, {}).get("json", []), r.get(f, {}).get("repeat_json", [])):
+                    try:
+                        _diff(json.loads(x), json.loads(y), "", paths)
+                    except ValueError:
+                        pass
+            out.append((f, "to_json() differs between two extractions in one process (second one with the input cursor at offset 7)",
+                        ",".join(sorted(set(paths))[:6])))
         for rb in runs[1:]:
             rb = rb.get(f, {})
             for dk, jk, what in (("digest", "json", "to_json() differs between fresh processes"),
@@ -828,11 +1012,29 @@ def frame_search(repo, hint):
             "observed": f"before: {f['before']} -- after: {f['after']}"}
 
 
+def _matches(sig, m):
+    """A recorded difference: the kind of difference (`kind_contains`: one substring or a list of alternatives), where it shows
+    (`detail`: exact strings, or `detail_regex` matching the whole detail) and optionally in which documents (`file_regex`)."""
+    import re
+    try:
+        kinds = sig["kind_contains"] if isinstance(sig["kind_contains"], list) else [sig["kind_contains"]]
+        if not any(k in m[1] for k in kinds):
+            return False
+        if sig.get("file_regex") and not re.search(sig["file_regex"], m[0]):
+            return False
+        if m[2] in sig["detail"]:
+            return True
+        return bool(sig.get("detail_regex")) and bool(m[2]) and re.fullmatch(sig["detail_regex"], m[2]) is not None
+    except (re.error, TypeError, KeyError):
+        return False
+
+
 def recorded_signatures():
     try:
         root = os.path.dirname(os.path.dirname(os.path.abspath(__file__)))
         kf = json.load(open(os.path.join(root, "known_findings.json"))).get("findings", [])
-        return [{"id": f["id"], "detail": list(f["mismatch"]["detail"]), "kind_contains": f["mismatch"]["kind_contains"]}
+        return [{"id": f["id"], "detail": list(f["mismatch"].get("detail") or []), "kind_contains": f["mismatch"]["kind_contains"],
+                 "detail_regex": f["mismatch"].get("detail_regex"), "file_regex": f["mismatch"].get("file_regex")}
                 for f in kf if f.get("property") == "C06" and isinstance(f.get("mismatch"), dict)]
     except (OSError, ValueError, KeyError, TypeError):
         return []
@@ -871,7 +1073,7 @@ def find(req):
     # what kind of difference it is) are listed separately: they are reported once, under their finding, and never hide new ones
     recorded = []
     for sig in recorded_signatures():
-        hit = [m for m in new if m[2] in sig["detail"] and sig["kind_contains"] in m[1]]
+        hit = [m for m in new if _matches(sig, m)]
         recorded += [list(m) + [sig["id"]] for m in hit]
         new = [m for m in new if m not in hit]
     if req.get("list_all"):
